@@ -102,6 +102,17 @@ def chk_corr(inp):
                 if not close(c[:, 0], want, 1e-6) or not close(c[:, 1], [nx / 2., ny / 2.], 1e-6):
                     return bad("correlation centroid of an image displaced by (sy=%d,sx=%d) is not displaced by it from the array centre (shape %dx%d, padding %d)" % (sy, sx, ny, nx, pad),
                                numpy.asarray(c).tolist(), want)
+    # a stack whose frames have different background levels gives, per frame, what the frame alone gives
+    ref = numpy.zeros((10, 12)); ref[4:6, 5:7] = 1.0; ref += 0.01
+    frames = numpy.array([numpy.roll(ref, (1, -2), (0, 1)) + 0.0, numpy.roll(ref, (-1, 1), (0, 1)) + 0.35, ref + 0.8])
+    for pad in (1, 2):
+        for thr in (0.0, 0.5):
+            cs = CN.correlation_centroid(frames.copy(), ref.copy(), threshold=thr, padding=pad)
+            for k in range(3):
+                c1f = CN.correlation_centroid(frames[k].copy(), ref.copy(), threshold=thr, padding=pad)
+                if not close(cs[:, k], numpy.asarray(c1f)[:, 0], 1e-9):
+                    return bad("correlation centroid of frame %d inside a stack (frames with different background levels) differs from the frame processed alone (padding %d, threshold %g)" % (k, pad, thr),
+                               numpy.asarray(cs[:, k]).tolist(), numpy.asarray(c1f)[:, 0].tolist())
     # positive scaling of image and reference leaves the correlation centroid unchanged
     ref = numpy.zeros((10, 12)); ref[4:6, 5:7] = 1.0; ref += 0.01
     im = numpy.roll(ref, (1, -2), (0, 1))
@@ -110,7 +121,7 @@ def chk_corr(inp):
         c2 = CN.correlation_centroid(numpy.array([kf * im, kf * ref]), kf * ref, threshold=0.5, padding=2)
         if not close(c1, c2, 1e-9):
             return bad("correlation centroid changes when image and reference are multiplied by %g" % kf, numpy.asarray(c2).tolist(), numpy.asarray(c1).tolist())
-    # odd sizes (the array centre n/2 is a half-integer: the reference lands within half a pixel of it; the DISPLACEMENT is exact)
+    # odd sizes
     for (ny, nx) in ((9, 9), (11, 7), (9, 12), (7, 10)):
         ref = numpy.zeros((ny, nx)); ref[ny // 2 - 1:ny // 2 + 2, nx // 2 - 1:nx // 2 + 2] = 1.0
         ref += 0.01
@@ -121,8 +132,10 @@ def chk_corr(inp):
                 if numpy.shape(c) != (2, 2) or not close(c[:, 0] - c[:, 1], [sx, sy], 1e-6):
                     return bad("correlation centroid of an image displaced by (sy=%d,sx=%d) is not displaced by it w.r.t. the undisplaced one (shape %dx%d, padding %d)" % (sy, sx, ny, nx, pad),
                                numpy.asarray(c).tolist(), [sx, sy])
-                if abs(c[0, 1] - nx / 2.) > 0.5 + 1e-6 or abs(c[1, 1] - ny / 2.) > 0.5 + 1e-6:
-                    return bad("correlation centroid of the reference with itself is not at the array centre (shape %dx%d, padding %d)" % (ny, nx, pad), numpy.asarray(c[:, 1]).tolist(), [nx / 2., ny / 2.])
+                # the array centre is pixel n // 2 (the zero-lag pixel of a centred correlation), whatever the padding
+                if abs(c[0, 1] - nx // 2) > 1e-6 or abs(c[1, 1] - ny // 2) > 1e-6:
+                    return bad("correlation centroid of the reference with itself is not at the array centre (pixel n//2) for padding %d (shape %dx%d): the centre depends on the padding" % (pad, ny, nx),
+                               numpy.asarray(c[:, 1]).tolist(), [nx // 2, ny // 2])
 
 
 one = lambda t, s: [{}]
